@@ -95,7 +95,8 @@ class NetlinkProtocol(object):
                 attributes[attr_type] = cls.attribute_types[attr_type].parse(data[4:length])
             except KeyError:
                 pass
-            data = data[length:]
+            # attributes are padded to a multiple of four octets (NLA_ALIGN)
+            data = data[(length + 3) & ~3:]
         return attributes
 
     @classmethod
